@@ -89,7 +89,7 @@ def ntops(n, rng, tier):
     if n == 4: tops += [[[0, 1], [2, 3], [1, 3], [0, 4]], [[0, 1], [1, 2], [2, 3], [3, 0]], [[0, 1, 2], [2, 3], [3, 4], [4, 1]]]
     if n == 5: tops += [[[0, 1], [1, 2, 3], [3, 4], [4, 5], [5, 2]], [[0], [0, 1], [1, 2], [2, 3], [3]]]
     if n == 6: tops += [[[0, 1], [1, 2], [2, 3], [3, 4], [4, 5], [5, 0]]]
-    for _ in range(2 if tier == "quick" else 6):
+    for _ in range(2 if tier == "quick" else 4):
         t = lab3(rng, n, tier)
         if valid(t): tops.append(t)
     return tops
@@ -99,11 +99,13 @@ def real_groups(tier, seed):
     if tier == "quick":
         cells = [("sse2", "c++14", []), ("avx2", "c++17", []), ("avx512", "c++17", []), ("sse2", "c++17", ["-DFASTOR_DONT_PERFORM_OP_MIN"]), ("avx2", "c++14", ["-DFASTOR_DONT_PERFORM_OP_MIN"])]
     else:
-        cells = [(isa, std, d) for isa in ("sse2", "avx2", "avx512") for std in ("c++14", "c++17") for d in ([], ["-DFASTOR_DONT_PERFORM_OP_MIN"])] + \
-                [(isa, "c++17", []) for isa in ("scalar", "sse42", "avx")]
+        # an n-operand einsum instantiation costs ~5 CPU-s to compile: the thorough box is a covering set of cells, not the full grid
+        NO = ["-DFASTOR_DONT_PERFORM_OP_MIN"]
+        cells = [("sse2", "c++14", []), ("sse2", "c++17", NO), ("avx2", "c++17", []), ("avx2", "c++14", NO), ("avx512", "c++17", []),
+                 ("avx512", "c++14", NO), ("scalar", "c++17", []), ("sse42", "c++17", NO), ("avx", "c++17", [])]
     groups = []
     for ci, (isa, std, defs) in enumerate(cells):
-        types = ["double", "float"] if tier == "quick" else ["double", "float", "int32_t", "int64_t"]
+        types = ["double", "float"] if tier == "quick" else (["double", "float", "int32_t", "int64_t"] if ci % 3 == 0 else ["double", "float"])
         if tier == "quick" and ci % 2 == 0: types = types + ["int32_t" if ci % 4 == 0 else "int64_t"]
         for t in types:
             cands = []
@@ -118,7 +120,7 @@ def real_groups(tier, seed):
                     free_ops = [k for k, o in enumerate(top) if any(cat.count(i) == 1 for i in o)]
                     if n >= 5 and not set(free_ops) <= {0, n - 1}:
                         continue        # no model of the 5+ operand order: keep to topologies whose result order no pairing can change
-                    for variant in range(3 if tier == "quick" else 5):
+                    for variant in range(3 if tier == "quick" else 4):
                         # shrinking / growing / mixed extents make different pairwise orders the cheapest
                         if variant == 0: ext = {nm: 2 + (len(names) - 1 - k) % 6 for k, nm in enumerate(names)}
                         elif variant == 1: ext = {nm: 2 + k % 6 for k, nm in enumerate(names)}
